@@ -222,91 +222,115 @@ theorem eq_never_typeerror (a : Obj) (x : Operand) : eqAlg a x ≠ .error .type 
 
 /-! ### the hash key is a function of the bits -/
 
-/-- **ALG = SPEC for `__hash__`**, for all thresholds, both modes, every length: what the code hashes —
-    `(self.tobytes(), len(self))`, or beyond `T` bits `((self[:A] + self[-B:]).tobytes(), len(self))` computed
-    through the msb0 / lsb0 slice arithmetic, `modified_length` handling and the copy-the-longer-operand `+` —
-    is `hashKey` of the object's bit list.  Class, `pos` and store layout do not enter. -/
+/-- **ALG = SPEC for `__hash__`**, for all thresholds, both option settings, every length: what the code hashes —
+    `(self.tobytes(), len(self))`, or beyond `T` bits
+    `((self._absolute_slice(0, A) + self._absolute_slice(len - B, len)).tobytes(), len(self))` computed through
+    `getslice_msb0`'s `modified_length` normalisation, CPython's index clamping and the copy-the-longer-operand `+`
+    — is `hashKey` of the object's bit list; in particular the `assert` in `_absolute_slice` never fires.
+    Class, `pos`, store layout and the lsb0 option do not enter. -/
 theorem hashAlg_eq_hashKey (T A B : Nat) (lsb0 : Bool) (o : Obj) (hw : o.store.wf)
     (hc : o.cls.isMutable = false) :
-    hashAlg T A B lsb0 o = .ok (hashKey T A B lsb0 o.bits) := by
+    hashAlg T A B lsb0 o = .ok (hashKey T A B o.bits) := by
   simp only [hashAlg, hc, hashKey, Obj.bits, wf_bits _ hw, wf_len _ hw, wf_tobytes _ hw]
   simp only [Bool.false_eq_true, if_false]
   by_cases hT : o.store.raw.length ≤ T
   · simp only [hT, if_true]
-  · simp only [hT, if_false]
-    cases lsb0 with
-    | false =>
-      simp only [Store.getSlice, Bool.false_eq_true, if_false, getSliceMsb0_prefix _ hw, getSliceMsb0_suffix _ hw,
-        add_plain, sample]
-      rfl
-    | true =>
-      simp only [Store.getSlice, if_true, getSliceLsb0_prefix _ hw, getSliceLsb0_suffix _ hw, add_plain, sample]
-      rfl
+  · simp only [hT, if_false, absoluteSlice_prefix _ hw, absoluteSlice_suffix _ hw, add_plain, sample]
+    rfl
+
+/-- **The hash is identical in both bit-numbering modes** (C12's clause): the value of `options.lsb0` while
+    `hash()` runs does not enter the key.  In the transcription this is immediate — since fix 42091e9 no function
+    on the path dispatches on the option (`_absolute_slice` always uses `getslice_msb0`) — so the content of the
+    claim is carried by the correspondence: the harness captures the key under both settings, in both orders. -/
+theorem hashKey_mode_independent (T A B : Nat) (o : Obj) :
+    hashAlg T A B true o = hashAlg T A B false o := rfl
 
 /-- **Equal bits ⇒ equal hash key, for every length** (below, at and beyond the sampling threshold), whatever
-    the classes (both hashable), positions and layouts of the two objects, in whichever mode is on. -/
-theorem hashKey_congr (T A B : Nat) (lsb0 : Bool) (a b : Obj) (ha : a.store.wf) (hb : b.store.wf)
+    the classes (both hashable), positions and layouts of the two objects, and whichever mode is on for either
+    evaluation. -/
+theorem hashKey_congr (T A B : Nat) (l1 l2 : Bool) (a b : Obj) (ha : a.store.wf) (hb : b.store.wf)
     (hca : a.cls.isMutable = false) (hcb : b.cls.isMutable = false) (h : a.bits = b.bits) :
-    hashAlg T A B lsb0 a = hashAlg T A B lsb0 b := by
-  rw [hashAlg_eq_hashKey T A B lsb0 a ha hca, hashAlg_eq_hashKey T A B lsb0 b hb hcb, h]
+    hashAlg T A B l1 a = hashAlg T A B l2 b := by
+  rw [hashAlg_eq_hashKey T A B l1 a ha hca, hashAlg_eq_hashKey T A B l2 b hb hcb, h]
 
 /-- The key never depends on `pos`, on which hashable class the object has, or on the store layout
-    (in-memory store vs. a whole-buffer store that still carries `modified_length`). -/
-theorem hashKey_sampling_sound (T A B : Nat) (lsb0 : Bool) (s : Bits) (c1 c2 : Cls) (p1 p2 : Nat)
+    (in-memory store vs. a whole-buffer store carrying `modified_length`). -/
+theorem hashKey_sampling_sound (T A B : Nat) (l1 l2 : Bool) (s : Bits) (c1 c2 : Cls) (p1 p2 : Nat)
     (h1 : c1.isMutable = false) (h2 : c2.isMutable = false) :
-    hashAlg T A B lsb0 ⟨c1, { raw := s }, p1⟩ = hashAlg T A B lsb0 ⟨c2, { raw := s, modLen := some s.length }, p2⟩ := by
-  apply hashKey_congr T A B lsb0 _ _ _ _ h1 h2
+    hashAlg T A B l1 ⟨c1, { raw := s }, p1⟩ = hashAlg T A B l2 ⟨c2, { raw := s, modLen := some s.length }, p2⟩ := by
+  apply hashKey_congr T A B l1 l2 _ _ _ _ h1 h2
   · have w1 : ({ raw := s } : Store).wf := by intro m hm; cases hm
     have w2 : ({ raw := s, modLen := some s.length } : Store).wf := by intro m hm; cases hm; rfl
     simp only [Obj.bits, wf_bits _ w1, wf_bits _ w2]
   · intro m hm; cases hm
   · intro m hm; cases hm; rfl
 
-/-- **The contract: objects that are `==` have equal hashes** (Bits / ConstBitStream, every length). -/
-theorem eq_implies_hash_eq (T A B : Nat) (lsb0 : Bool) (a b : Obj) (ha : a.store.wf) (hb : b.store.wf)
+/-- **The contract: objects that are `==` have equal hashes** (Bits / ConstBitStream, every length, either mode). -/
+theorem eq_implies_hash_eq (T A B : Nat) (l1 l2 : Bool) (a b : Obj) (ha : a.store.wf) (hb : b.store.wf)
     (hca : a.cls.isMutable = false) (hcb : b.cls.isMutable = false)
     (h : eqAlg a (.bitstring b) = .ok true) :
-    hashAlg T A B lsb0 a = hashAlg T A B lsb0 b :=
-  hashKey_congr T A B lsb0 a b ha hb hca hcb ((eq_true_iff_bits a b ha hb).mp h)
+    hashAlg T A B l1 a = hashAlg T A B l2 b :=
+  hashKey_congr T A B l1 l2 a b ha hb hca hcb ((eq_true_iff_bits a b ha hb).mp h)
 
 /-- The key always carries the length, so objects of different lengths never share a key. -/
-theorem hashKey_length (T A B : Nat) (lsb0 : Bool) (s : Bits) : (hashKey T A B lsb0 s).2 = s.length := by
+theorem hashKey_length (T A B : Nat) (s : Bits) : (hashKey T A B s).2 = s.length := by
   unfold hashKey; split <;> rfl
 
 /-- Up to the threshold the key determines the bits (no collisions among short bitstrings): `tobytes` is
     injective once the length is known. -/
-theorem hashKey_injective_below_threshold (T A B : Nat) (l1 l2 : Bool) (s t : Bits)
-    (hs : s.length ≤ T) (ht : t.length ≤ T) (h : hashKey T A B l1 s = hashKey T A B l2 t) : s = t := by
+theorem hashKey_injective_below_threshold (T A B : Nat) (s t : Bits)
+    (hs : s.length ≤ T) (ht : t.length ≤ T) (h : hashKey T A B s = hashKey T A B t) : s = t := by
   simp only [hashKey, hs, ht, if_true] at h
   injection h with hb hl
   exact toBytes_injective s t hl hb
 
 /-- Beyond the threshold only the ends are read: two bitstrings of the same length that agree on the first `A`
     and the last `B` bits have the same key (collisions are allowed there, inequality of `==` objects is not). -/
-theorem hashKey_reads_only_ends (T A B : Nat) (lsb0 : Bool) (s t : Bits) (hl : s.length = t.length)
-    (hT : T < s.length) (hB : 0 < B) (h1 : s.take A = t.take A)
-    (h2 : s.drop (s.length - B) = t.drop (t.length - B))
-    (h3 : s.drop (s.length - A) = t.drop (t.length - A)) (h4 : s.take B = t.take B) :
-    hashKey T A B lsb0 s = hashKey T A B lsb0 t := by
+theorem hashKey_reads_only_ends (T A B : Nat) (s t : Bits) (hl : s.length = t.length)
+    (hT : T < s.length) (hB : 0 < B) (hBl : B ≤ s.length) (h1 : s.take A = t.take A)
+    (h2 : s.drop (s.length - B) = t.drop (t.length - B)) :
+    hashKey T A B s = hashKey T A B t := by
   have hs : ¬ s.length ≤ T := by omega
   have ht : ¬ t.length ≤ T := by omega
-  have hB0 : B ≠ 0 := by omega
-  simp only [hashKey, hs, ht, if_false, sample, pySuffix, hB0]
-  rw [hl] at h2 h3
-  cases lsb0 with
-  | false => simp only [Bool.false_eq_true, if_false, h1, hl, h2]
-  | true => simp only [if_true, hl, h3, h4]
+  rw [hl] at h2
+  simp only [hashKey, hs, ht, if_false, sample, absSuffix_eq_drop B s hB hBl,
+    absSuffix_eq_drop B t hB (by omega), h1, hl, h2]
+
+/-- With the sample sizes not above the object's length (always so in the code: `len > 2000 ≥ 800`), the sampled
+    bits are exactly the first `A` and the last `B` bits. -/
+theorem sample_first_last (A B : Nat) (s : Bits) (hB : 0 < B) (hBl : B ≤ s.length) :
+    sample A B s = s.take A ++ s.drop (s.length - B) := by
+  simp only [sample, absSuffix_eq_drop B s hB hBl]
 
 /-- **BitArray and BitStream are unhashable**; Bits and ConstBitStream always hash. -/
 theorem mutable_unhashable (T A B : Nat) (lsb0 : Bool) (o : Obj) (h : o.cls.isMutable = true) :
     hashAlg T A B lsb0 o = .error .type := by
   simp [hashAlg, h]
 
+/-- (for every store, well-formed or not: the `assert` of `_absolute_slice` cannot fire on this path) -/
 theorem immutable_hashable (T A B : Nat) (lsb0 : Bool) (o : Obj) (h : o.cls.isMutable = false) :
     ∃ k, hashAlg T A B lsb0 o = .ok k := by
+  have h1 : ∃ x, absoluteSlice o.store 0 (A : Int) = .ok x := by
+    unfold absoluteSlice
+    split
+    · exact ⟨_, rfl⟩
+    · split
+      · omega
+      · exact ⟨_, rfl⟩
+  have h2 : ∃ y, absoluteSlice o.store ((o.store.len : Int) - (B : Int)) (o.store.len : Int) = .ok y := by
+    unfold absoluteSlice
+    split
+    · exact ⟨_, rfl⟩
+    · split
+      · omega
+      · exact ⟨_, rfl⟩
+  obtain ⟨x, hx⟩ := h1
+  obtain ⟨y, hy⟩ := h2
   unfold hashAlg
   simp only [h, Bool.false_eq_true, if_false]
-  split <;> exact ⟨_, rfl⟩
+  split
+  · exact ⟨_, rfl⟩
+  · rw [hx, hy]; exact ⟨_, rfl⟩
 
 theorem mutable_classes : Cls.isMutable .bitArray = true ∧ Cls.isMutable .bitStream = true ∧
     Cls.isMutable .bits = false ∧ Cls.isMutable .constBitStream = false := by decide
@@ -359,12 +383,19 @@ theorem toBytes_frombytes (b : List Nat) (h : ∀ v ∈ b, v < 256) : (Store.fro
   simp only [Store.frombytes, Store.tobytes]
   exact toBytes_bytesToBits b h
 
-/-! ### for the record (C12): the sampled key differs between the two bit-numbering modes -/
+/-! ### for the record: the sampling expression before fix 42091e9 was mode-dependent -/
 
-/-- Beyond the threshold the msb0 and lsb0 keys of the same bits differ in general (`self[:A] + self[-B:]` is
-    mode-dependent); within one mode the contract above holds.  Small thresholds, same shape as 2000/800/800. -/
-theorem hashKey_mode_dependent_witness :
-    hashKey 2 1 1 false [true, false, false] ≠ hashKey 2 1 1 true [true, false, false] := by decide
+/-- Documentation witness about the OLD expression `self[:A] + self[-B:]` (`sampleOld`/`hashKeyOld`, kept in the
+    model only for this): beyond the threshold its key differed between msb0 and lsb0 … -/
+theorem old_sampling_mode_dependent_witness :
+    hashKeyOld 2 1 1 false [true, false, false] ≠ hashKeyOld 2 1 1 true [true, false, false] := by decide
+
+/-- … while the current key is the old msb0 key (the fix changed no msb0 hash value). -/
+theorem hashKey_eq_old_msb0 (T A B : Nat) (s : Bits) (hB : 0 < B) (hBl : B ≤ s.length) :
+    hashKey T A B s = hashKeyOld T A B false s := by
+  have : B ≠ 0 := by omega
+  simp only [hashKey, hashKeyOld, sample, sampleOld, pySuffix, absSuffix_eq_drop B s hB hBl, this,
+    Bool.false_eq_true, if_false]
 
 /-! ### non-vacuity -/
 
@@ -382,8 +413,8 @@ example :
 example : Store.frombuffer [true, false, true, true, false, false, false, true] (some 5)
     = .ok { raw := [true, false, true, true, false] } := by decide
 
-example : hashKey 4 2 1 false [true, true, false, false, false, true] = ([0b11100000], 6) ∧
-    hashKey 4 2 1 true [true, true, false, false, false, true] = ([0b01100000], 6) := by decide
+example : hashKey 4 2 1 [true, true, false, false, false, true] = ([0b11100000], 6) ∧
+    hashKeyOld 4 2 1 true [true, true, false, false, false, true] = ([0b01100000], 6) := by decide
 
 example : eqAlg ⟨.bitArray, { raw := [true, false, false, false, true, true, true, true] }, 0⟩
     (.str "0b1000, 0xF".toList) = .ok true := by decide
